@@ -97,6 +97,19 @@ func genTBFCase(rng *rand.Rand, multi bool) tcase {
 			}
 			c.Steps = append(c.Steps, tstep{GapUs: 0, Size: 10}, tstep{GapUs: min(refillUs*2, 300000), Size: 10})
 		}
+		if !multi && c.Rate <= 4_000_000 && c.Queue*2 >= c.Burst*5 && rng.Intn(2) == 0 {
+			// burst lowered and restored repeatedly with a backlog queued: drain the bucket, fill the queue, then toggle
+			// TBFMaxBurst between a quarter and the full burst with a tiny arrival after each Set (a refill only happens on
+			// an arrival). Lowering forgets tokens, raising only lifts the cap: no cycle may create credit
+			tot := 0
+			for tot < c.Burst+c.Queue {
+				c.Steps = append(c.Steps, tstep{GapUs: 0, Size: min(1400, c.Burst)})
+				tot += min(1400, c.Burst)
+			}
+			for k := 0; k < 3+rng.Intn(3); k++ {
+				c.Steps = append(c.Steps, tstep{GapUs: 300, Size: 10, SetBurst: max(c.Burst/4, 100)}, tstep{GapUs: 300, Size: 10, SetBurst: c.Burst})
+			}
+		}
 		if rng.Intn(3) == 0 {
 			// refill-granularity pattern: bucket filled >100ms ago, emptied just before the next refill instant, then hit again just after it
 			c.Steps = append(c.Steps, tstep{GapUs: 150000, Size: 10})
@@ -476,6 +489,13 @@ func runTBF(tier string, seed int64, shard, nshard int, r *res.Result, replay *t
 
 func min(a, b int) int {
 	if a < b {
+		return a
+	}
+	return b
+}
+
+func max(a, b int) int {
+	if a > b {
 		return a
 	}
 	return b
